@@ -19,7 +19,7 @@ func init() {
 		Name:  "PRIO",
 		Doc:   "weight order, discount loop, path selection pairing, direct-use rule, abstract cost bounds, input registration",
 		Run:   runPrio,
-		Floor: map[string]int{"PRIO-W": 4, "PRIO-D": 5, "PRIO-P": 4, "PRIO-N": 3, "PRIO-T": 1, "INPUT": 8},
+		Floor: map[string]int{"PRIO-W": 4, "PRIO-D": 5, "PRIO-P": 4, "PRIO-N": 3, "PRIO-T": 1, "INPUT": 8, "INPUT-C": 2},
 	})
 }
 
@@ -84,7 +84,7 @@ func runPrio(c *Ctx) {
 		}
 		return b
 	}
-	named := wNormal /*F4*/ + min(wNormal, wMatch) /*F2 discounted*/ + wNormal /*A*/
+	named := wNormal /*F4*/ + min(wNormal, wMatch) /*F2 discounted*/ + wNormal                               /*A*/
 	typed := wTyped /*G1*/ + wTyped /*F5*/ + wTyped /*F3*/ + min(wTyped, wMatch) /*G2 discounted*/ + wNormal /*A*/
 	c.R.Add("PRIO-W", "name-taking-converter-cheaper", "(edge table)", "-", named < typed,
 		"producing a named parameter through a converter that takes the name (F4,F2,A) is strictly cheaper than through a type-only converter (G1,F5,F3,G2,A)", fmt.Sprintf("%d < %d", named, typed))
@@ -606,6 +606,58 @@ func (c *Ctx) runInputs(kinds *core.Kinds) {
 		}
 		c.R.Add("INPUT", key+"|hangs-off-root-and-tracked", "inputBuilder", pos, edgeOK && tracked,
 			"each registered input gets exactly its edge to the input root and is recorded in the list of supplied inputs", fmt.Sprintf("root-edge=%v tracked=%v", edgeOK, tracked))
+	}
+	// INPUT-C: every supplied converter (and every generated one) is added to the graph, unconditionally
+	if fb := c.P.MustRole("funcBuilder"); fb != nil {
+		supplied, generated := false, false
+		whyS, whyG := "no registration loop over the builder's converter list", "no registration of generated converters"
+		for _, ci := range core.Calls(ib) {
+			if ci.Common().StaticCallee() != fb {
+				continue
+			}
+			recv := ci.Common().Args[0]
+			lits := core.Lits(core.Guards(ci.Block()))
+			// receiver: element of b.convs
+			if ld, ok := recv.(*ssa.UnOp); ok {
+				if ia, ok := ld.X.(*ssa.IndexAddr); ok {
+					if fr, ok := core.AsFieldLoad(ia.X); ok && fr.Owner == "argBuilder" && strings.Contains(core.TypeStr(ia.X.Type()), "[]*Func") {
+						extra := ""
+						for _, l := range lits {
+							if !core.IsLoopBound(l) {
+								extra = l.String()
+							}
+						}
+						supplied = extra == ""
+						whyS = ternary(supplied, "every element of the builder's converter list is added", "registration is filtered by "+extra)
+					}
+				}
+			}
+			// receiver: result of a generator call
+			if e, ok := recv.(*ssa.Extract); ok {
+				if gc, ok := e.Tuple.(*ssa.Call); ok && !gc.Common().IsInvoke() && gc.Common().StaticCallee() == nil && core.TypeStr(gc.Common().Value.Type()) == "ConverterGenFunc" {
+					extra := ""
+					for _, l := range lits {
+						switch {
+						case core.IsLoopBound(l):
+						case l.Kind == "cmp" && l.Op == token.GTR:
+						case l.Kind == "cmp" && l.Op == token.EQL && (core.IsNilConst(l.X) || core.IsNilConst(l.Y)):
+						default:
+							extra = l.String()
+						}
+					}
+					generated = extra == ""
+					whyG = ternary(generated, "every non-nil generated converter is added", "registration is filtered by "+extra)
+				}
+			}
+			// the converter is added with its outputs
+			if k, ok := ci.Common().Args[len(ci.Common().Args)-1].(*ssa.Const); ok && k.Value != nil && k.Value.ExactString() != "true" {
+				supplied, whyS = false, "converter added without its outputs"
+			}
+		}
+		c.R.Add("INPUT-C", "inputBuilder|every-supplied-converter-registered", "inputBuilder", p.Pos(ib.Pos()), supplied,
+			"every supplied converter is added to the resolution graph together with its outputs — none is filtered, merged or de-duplicated away", whyS)
+		c.R.Add("INPUT-C", "inputBuilder|every-generated-converter-registered", "inputBuilder", p.Pos(ib.Pos()), generated,
+			"every converter a generator returns is added to the resolution graph", whyG)
 	}
 	// option closures key the typed maps by the value's own type
 	n := 0
